@@ -86,6 +86,12 @@ fn big() -> Rectangle {
 
 /// the pixel map the property C06 demands, from the public fill_area()/stroke_area()/contains()
 fn expected_map(s: &Styled<RoundedRectangle, PrimitiveStyle<Gray8>>, margin: i32) -> Map {
+    expected_map2(s, margin, false)
+}
+
+/// `clip_fill` = the prediction of the known-finding class K06_rrect_fill_outside_stroke: fill colour only on
+/// fill area ∩ stroke area
+fn expected_map2(s: &Styled<RoundedRectangle, PrimitiveStyle<Gray8>>, margin: i32, clip_fill: bool) -> Map {
     let (fa, sa) = (s.fill_area(), s.stroke_area());
     let st = s.style;
     let mut m = Map::new();
@@ -95,7 +101,7 @@ fn expected_map(s: &Styled<RoundedRectangle, PrimitiveStyle<Gray8>>, margin: i32
     for y in y0..y1 {
         for x in x0..x1 {
             let p = Point::new(x, y);
-            if fa.contains(p) {
+            if fa.contains(p) && !(clip_fill && !sa.contains(p)) {
                 if let Some(c) = st.fill_color {
                     m.insert((y, x), c.tag());
                 }
@@ -119,6 +125,13 @@ pub fn search(suite: &str, a: &[&str]) -> Option<String> {
             let s = r.into_styled(st);
             let want = expected_map(&s, 3);
             let x = render(&s, big());
+            if x.iter_map != want || x.native_map != want || x.pixels_map != want {
+                let clip = expected_map2(&s, 3, true);
+                if [&x.iter_map, &x.native_map, &x.pixels_map].iter().all(|m| **m == want || **m == clip) {
+                    let bad = [&x.iter_map, &x.native_map, &x.pixels_map].iter().find(|m| ***m != want).map(|m| first_diff(&want, m)).unwrap();
+                    return Some(format!("FAIL class=K06_rrect_fill_outside_stroke fill_area() point outside stroke_area() not painted: {}", bad));
+                }
+            }
             if x.iter_map != want {
                 return Some(format!("FAIL draw() (draw_iter-only target) differs from fill_area/stroke_area: {} ({} vs {} px)", first_diff(&want, &x.iter_map), want.len(), x.iter_map.len()));
             }
@@ -173,6 +186,11 @@ pub fn search(suite: &str, a: &[&str]) -> Option<String> {
             let x = render(&s, bb);
             if x.iter_map != x.native_map {
                 return Some(format!("FAIL draw() on draw_iter-only vs native target: {}", first_diff(&x.iter_map, &x.native_map)));
+            }
+            if x.pixels_map != x.iter_map && st.fill_color.is_some() && !(st.stroke_color.is_some() && st.stroke_width > 0)
+                && x.iter_map == expected_map(&s, 3).into_iter().filter(|((y, x_), _)| bb.contains(Point::new(*x_, *y))).collect::<Map>()
+                && x.pixels_map == expected_map2(&s, 3, true).into_iter().filter(|((y, x_), _)| bb.contains(Point::new(*x_, *y))).collect::<Map>() {
+                return Some(format!("FAIL class=K01_rrect_fill_outside_stroke fill only: pixels() omits fill_area() points outside stroke_area(): {}", first_diff(&x.iter_map, &x.pixels_map)));
             }
             if x.pixels_map != x.iter_map {
                 return Some(format!("FAIL pixels() vs draw(): {} ({} vs {} px)", first_diff(&x.iter_map, &x.pixels_map), x.iter_map.len(), x.pixels_map.len()));
